@@ -40,6 +40,33 @@ class HHSys(E1):
         self.mode = mode
         self._sl_cache = {}
         self._probes_cache = {}
+        self.file = os.path.join(scratch_dir, "hh.npz")
+        from .cm_common import freeze_zip_clock
+
+        freeze_zip_clock()
+
+    def _sync(self):
+        """Re-read the scratch file after the library wrote (or should have written) it."""
+        try:
+            with open(self.file, "rb") as f:
+                self._file_now = f.read()
+        except FileNotFoundError:
+            self._file_now = b""
+
+    _file_now = b""
+
+    def ext_capture(self):
+        return self._file_now
+
+    def ext_restore(self, x):
+        if x == self._file_now:
+            return
+        if x:
+            with open(self.file, "wb") as f:
+                f.write(x)
+        elif os.path.exists(self.file):
+            os.remove(self.file)
+        self._file_now = x
 
     # cfg: args=[w,d,L(,phi)], S, keys, mults, ngrams, thresholds (c13), saveload
     def factory(self):
@@ -79,6 +106,8 @@ class HHSys(E1):
         if c.get("saveload", True):
             for s in range(S):
                 yield ("saveload", s)
+            for s in range(S):
+                yield ("savecheck", s)
         if self.mode == "c13":
             for s in range(S):
                 for t in c["thresholds"]:
@@ -108,15 +137,35 @@ class HHSys(E1):
             # real save() + real load(); the result is a deterministic function of the
             # sketch's own state, so it is memoised per distinct sketch state
             _, s = ev
-            before = capture(work[s], self.skip)
-            hit = self._sl_cache.get(before)
+            # memoised only while no state outside the objects exists (pristine globals)
+            memo_ok = not (self.G.capture() if hasattr(self, "G") else ())
+            before = (capture(work[s], self.skip), self.ext_capture())
+            hit = self._sl_cache.get(before) if memo_ok else None
             if hit is None:
-                path = os.path.join(self.dir, "hh.npz")
-                work[s].save(path)
-                work[s] = type(work[s]).load(path)
-                self._sl_cache[before] = capture(work[s], self.skip)
+                work[s].save(self.file)
+                self._sync()
+                work[s] = type(work[s]).load(self.file)
+                if memo_ok and not (self.G.capture() if hasattr(self, "G") else ()):
+                    self._sl_cache[before] = (capture(work[s], self.skip), self.ext_capture())
             else:
-                restore(work[s], hit, self.skip)
+                restore(work[s], hit[0], self.skip)
+                self.ext_restore(hit[1])
+        elif op == "savecheck":
+            _, s = ev
+            work[s].save(self.file)
+            self._sync()
+            try:
+                L = type(work[s]).load(self.file)
+            except Exception as e:
+                probs.append(f"sketch {s}: load() of the file just written by save() raised "
+                             f"{type(e).__name__}: {e}")
+                L = None
+            if L is not None:
+                diff = SK.persist_diff(work[s], L)
+                if diff:
+                    probs.append(f"sketch {s}: after save() to the shared scratch path, load() of "
+                                 f"that path returns a different sketch (differs in {diff})")
+                del L
         elif op == "query":
             _, s, t = ev
             probs = self.query_event(work[s], dict(model[s]), s, t)
@@ -267,13 +316,29 @@ class HHSys(E1):
                             )
                 for x, f in true.items():
                     if 2 * f > N:
-                        for t in (0, 1):
+                        for t in (1, 0):
                             top = sk.query(1, t)
                             if not top or top[0][0] != x or int(top[0][1]) < 2 * f - N:
                                 probs.append(
                                     f"sketch {s}: majority key {x!r} (f={f} of N={N}) is not "
                                     f"reported first with count >= {2*f-N}: query(1,{t}) = {top}"
                                 )
+        if self.mode == "c04":
+            # every pass ends with query(k, 0) on EVERY sketch of the system, small k first:
+            # an untouched sketch is thus asked the same question again after another sketch
+            # was modified and queried (its answer must not depend on that)
+            for s, sk in enumerate(work):
+                true = dict(model[s])
+                if sum(true.values()) > U32:
+                    continue
+                sk.query(1, 0)
+                ans = dict(sk.query(INF, 0))
+                for x, b in self.bounds(true).items():
+                    if b > 0 and (x not in ans or int(ans[x]) < b):
+                        probs.append(
+                            f"sketch {s}: query(inf, 0) lacks {x!r} with count >= {b} "
+                            f"(f = {true[x]}); got {ans.get(x)} - answer {sorted(ans.items())[:4]}"
+                        )
         return probs
 
     # ------------------------------------------------------------------ C13
@@ -281,9 +346,12 @@ class HHSys(E1):
         probs = []
         n_added = int(sk.n_added())
         t_eff = int(np.uint32(float(sk.phi) * n_added)) if t is None else int(t)
+        first1 = sk.query(1, t)  # a small k FIRST: a later larger k must not be cut down to it
         ans = sk.query(INF, t)
         keys = [k for k, _ in ans]
         cnts = [int(c) for _, c in ans]
+        if [int(c) for _, c in first1] != cnts[:1]:
+            probs.append(f"sketch {s}: query(1,{t}) = {first1} is not the head of query(inf,{t}) = {ans}")
         if len(set(keys)) != len(keys):
             probs.append(f"sketch {s}: query(inf,{t}) repeats a key: {ans}")
         if any(cnts[i] < cnts[i + 1] for i in range(len(cnts) - 1)):
